@@ -82,6 +82,12 @@ func vfGenTW(t *rapid.T) vfTWCase {
 		}
 		c.Chunks, c.PauseEach = nil, 0
 	}
+	if rapid.IntRange(0, 7).Draw(t, "bigfile") == 0 {
+		// more than the 32 MiB write buffer goes into one file
+		c.FrameSize = rapid.SampledFrom([]int{39040, 38000, 163840}).Draw(t, "bigframe")
+		c.Frames = 34*1024*1024/c.FrameSize + rapid.IntRange(1, 40).Draw(t, "bigextra")
+		c.Chunks, c.PauseEach, c.TailBytes = nil, 0, 0
+	}
 	c.Procs = rapid.SampledFrom([]int{1, 2, 4, 16}).Draw(t, "procs")
 	c.Burners = rapid.IntRange(0, 3).Draw(t, "burners")
 	c.W, c.H = 160, 120
@@ -213,7 +219,7 @@ func vfWriterGoroutines() int {
 
 func vfRunTW(c vfTWCase) *kit.Result {
 	r := &kit.Result{}
-	if c.FrameSize < 4 || c.FrameSize > 100000 || c.Frames < 0 || c.Frames > 5000 || c.TailBytes < 0 || c.TailBytes >= c.FrameSize || c.Procs < 1 || c.Procs > 64 || c.Burners < 0 || c.Burners > 8 || c.FPS < 1 || c.FPS > 255 {
+	if c.FrameSize < 4 || c.FrameSize > 400000 || c.Frames < 0 || c.Frames > 5000 || c.TailBytes < 0 || c.TailBytes >= c.FrameSize || c.Procs < 1 || c.Procs > 64 || c.Burners < 0 || c.Burners > 8 || c.FPS < 1 || c.FPS > 255 {
 		r.Failf("malformed case")
 		return r
 	}
@@ -421,6 +427,9 @@ func vfRunTW(c vfTWCase) *kit.Result {
 	if c.Frames > 256 {
 		r.Class("frames>256")
 	}
+	if c.Frames*c.FrameSize > 32*1024*1024 {
+		r.Class("more_than_32MiB_in_one_file")
+	}
 	if len(c.Chunks) > 0 {
 		r.Class("chunked")
 	}
@@ -430,7 +439,7 @@ func vfRunTW(c vfTWCase) *kit.Result {
 
 func TestVF_C18(t *testing.T) {
 	kit.Drive(t, "C18", "TestVF_C18",
-		"generated: camera header with FrameSize 8..39040, 0-1500 frames whose bytes are a function of (seed, frame number), optionally a final incomplete frame, sender chunking (1 byte .. 100 kB writes spanning frame boundaries) and pauses, GOMAXPROCS in {1,2,4,16}, 0-3 CPU-burning goroutines; the real handleConn of thermal-writer on a pipe, built with the race detector. Oracle (round-trip): after handleConn has returned and the writer goroutine has exited (seen in the goroutine dump), an independent CPTR parser (magic, version 2, 'H' section with model, brand, fps, resolution, compression 0, device name/id, timestamp; 'F' sections with exactly one FrameSize field) recovers exactly the complete frames sent, once, in order, byte for byte, with no trailing bytes; zero race reports. Non-trivial: more than 256 frames (every buffer recycled) and a logged write backlog (the writer lagged the reader by more than 10 frames); the class backlog>=200 counts the cases in which at least 200 of the 256 buffers were in flight.",
+		"generated: camera header with FrameSize 8..39040 (and Boson-sized 163840), 0-1500 frames (a class of streams exceeds the writer's 32 MiB buffer) whose bytes are a function of (seed, frame number), optionally a final incomplete frame, sender chunking (1 byte .. 100 kB writes spanning frame boundaries) and pauses, GOMAXPROCS in {1,2,4,16}, 0-3 CPU-burning goroutines; the real handleConn of thermal-writer on a pipe, built with the race detector. Oracle (round-trip): after handleConn has returned and the writer goroutine has exited (seen in the goroutine dump), an independent CPTR parser (magic, version 2, 'H' section with model, brand, fps, resolution, compression 0, device name/id, timestamp; 'F' sections with exactly one FrameSize field) recovers exactly the complete frames sent, once, in order, byte for byte, with no trailing bytes; zero race reports. Non-trivial: more than 256 frames (every buffer recycled) and a logged write backlog (the writer lagged the reader by more than 10 frames); the class backlog>=200 counts the cases in which at least 200 of the 256 buffers were in flight.",
 		vfGenTW, vfRunTW)
 }
 
